@@ -159,6 +159,33 @@ def check_c19(run):
         run_driver(run, binary, sp, tp)
         reports += parse_races(stderr_of(run, tp))
         total += len(ss)
+    # cold syntax trees: fresh pools whose rules (every kind of node) are evaluated for the first time by several
+    # requests at once, each with private data - whatever the interpreter stores in the shared tree is a conflict
+    cold = []
+    # sequential models only: the rules of ONE request share its object, running them in parallel would be the user's race
+    meths = ["Execute", "ExecuteSelectedRules", "ExecuteSelectedRulesWithControl", "ExecuteWithStopTagDirect",
+             "ExecuteSelectedRulesWithControlAsGivenSortedName", "ExecuteSelectedRulesWithControlAndStopTag", "em", "emSelected"]
+    for i in range(60 if quick else 600):
+        mn = rng.randint(2, 3)
+        mx = mn + rng.randint(1, 2)
+        reqs = []
+        for qn in range(rng.randint(2, mx)):
+            r = P.call_for(rng.choice(meths), ["k1", "k2", "k3", "k4"], 4)
+            r.update(q=qn + 1)
+            reqs.append(r)
+        cold.append({"id": 7000000 + i, "kind": "cold", "min": mn, "max": mx, "silent": True, "rules": [], "script": [{"op": "burst", "reqs": reqs}]})
+    binary = run.go_build("pooldrv", race=True)
+    sp = os.path.join(run.scratch, "sessions-cold.ndjson")
+    tp = os.path.join(run.scratch, "traces-cold.ndjson")
+    write_ndjson(sp, cold)
+    run_driver(run, binary, sp, tp)
+    cold_evs = read_ndjson(tp)
+    bad = [e for e in cold_evs if e.get("ev") == "cold_err"]
+    if bad or sum(1 for e in cold_evs if e.get("ev") == "cold_done") != len(cold):
+        raise Infra("cold sessions did not run cleanly: %s" % json.dumps(bad[:3]))
+    reports += parse_races(stderr_of(run, tp))
+    total += len(cold)
+    run.cov["cold_tree_sessions"] = len(cold)
     seen = {}
     for t in reports:
         seen.setdefault(race_key(t), []).append(t)
